@@ -145,12 +145,15 @@ def lastValue (es : List (Bytes × Bytes)) (k : Bytes) : Option Bytes :=
 def assoc (es : List (Bytes × Bytes)) : List (Bytes × Bytes) :=
   (es.map (·.1)).eraseDups.map fun k => (k, (lastValue es k).getD [])
 
-/-- what a reader of the file is entitled to see: the non-empty sections with their keys and values.
-Comment lines, blank lines and the preamble contribute nothing. -/
-def meaning (d : Doc) : List (Bytes × List (Bytes × Bytes)) :=
-  d.secs.filterMap fun s =>
+/-- the non-empty sections with their keys and values -/
+def meaningOf (secs : List Sec) : List (Bytes × List (Bytes × Bytes)) :=
+  secs.filterMap fun s =>
     let es := entriesOf s.body
     if es.isEmpty then none else some (s.header.name, assoc es)
+
+/-- what a reader of the file is entitled to see: the non-empty sections with their keys and values.
+Comment lines, blank lines and the preamble contribute nothing. -/
+def meaning (d : Doc) : List (Bytes × List (Bytes × Bytes)) := meaningOf d.secs
 
 /-! ## well-formedness: the documented grammar, made explicit -/
 
